@@ -153,8 +153,10 @@ fn run_hist(ctx: &mut Ctx, cap: usize, queue: bool, ops: &[Op]) {
                 return;
             }
         }
-        if let Ok((s, e, l, _, _)) = guarded(|| h.real.verif_cursors()) {
-            ctx.rec.cover(&format!("{}|cap{}|s{}e{}l{}|{:?}", kind, cap, s, e, l, op));
+        if k < 5000 {
+            if let Ok((s, e, l, _, _)) = guarded(|| h.real.verif_cursors()) {
+                ctx.rec.cover(&format!("{}|cap{}|s{}e{}l{}|{:?}", kind, cap, s, e, l, op));
+            }
         }
     }
     ctx.rec.count("histories", 1);
@@ -273,6 +275,29 @@ pub fn run(ctx: &mut Ctx) {
             .collect();
         ctx.rec.case_marker(case, "random buffer history");
         run_hist(ctx, cap, queue, &h);
+    }
+    // endurance: very long histories WITHOUT flush on the capacities pushr really uses (3, 10, 100)
+    // and a few others: counters that wrap (u8 / u16) or drift only show after tens of thousands of
+    // cursor advances
+    let elen = ctx.n(160_000, 1_200_000);
+    for (j, cap) in [3usize, 10, 100, 7, 1, 16].iter().enumerate() {
+        for queue in [true, false] {
+            case += 1;
+            if !ctx.mine(case) {
+                continue;
+            }
+            let mut r = Rng::derive(ctx.seed, &[17, 55, j as u64, queue as u64]);
+            let h: Vec<Op> = (0..elen)
+                .map(|_| match r.below(8) {
+                    0..=2 => Op::Push,
+                    3..=4 => Op::Force,
+                    _ => Op::Pop,
+                })
+                .collect();
+            ctx.rec.case_marker(case, "endurance buffer history");
+            run_hist(ctx, *cap, queue, &h);
+            ctx.rec.count("endurance_histories", 1);
+        }
     }
     ctx.rec.checkpoint();
     io_part(ctx);
